@@ -1,7 +1,7 @@
 // @common
     use crate::verif_ref::{base, spec_tile_id};
 
-// @h id=H7.2-z$z prop=C07 rep="z:0-31" quick="0-21" cap=1200 mem=8 unwind=34 bounds="zoom $z fixed, every x,y < 2^$z symbolic (full grid of the zoom)"
+// @h id=H7.2-z$z prop=C07 rep="z:0-31" quick="0-19" cap=1200 mem=8 unwind=34 bounds="zoom $z fixed, every x,y < 2^$z symbolic (full grid of the zoom)"
     /// tile_id equals the specification's algorithm (rotate/flip loop) on the whole grid of one zoom, and lies in the zoom's block.
     #[kani::proof]
     fn h7_2_spec_z$z() {
@@ -64,7 +64,7 @@
         kani::cover!($b == 6 || id + 1 == base(EDGES[$b + 1]));
     }
 
-// @h id=H7.5-z$z prop=C07 rep="z:1-31" quick="1-5" cap=900 mem=8 unwind=34 bounds="zoom $z fixed; every pair of consecutive ids inside the zoom"
+// @h id=H7.5-z$z prop=C07 rep="z:1-31" quick="1-4" cap=900 mem=8 unwind=34 bounds="zoom $z fixed; every pair of consecutive ids inside the zoom"
     /// consecutive ids within a zoom are edge-adjacent tiles
     #[kani::proof]
     fn h7_5_adjacent_z$z() {
@@ -81,7 +81,7 @@
         kani::cover!(d + 2 == (1u64 << (2 * z as u32)));
     }
 
-// @h id=H7.6-z$z prop=C07 rep="z:0-30" quick="0-12" cap=900 mem=8 unwind=34 bounds="parent zoom $z fixed; every parent x,y < 2^$z and all four children"
+// @h id=H7.6-z$z prop=C07 rep="z:0-30" quick="0-30" cap=900 mem=8 unwind=34 bounds="parent zoom $z fixed; every parent x,y < 2^$z and all four children"
     /// a tile's four children occupy the aligned block of four positions below the parent's position
     #[kani::proof]
     fn h7_6_children_z$z() {
